@@ -11,7 +11,6 @@ import (
 	"regexp"
 	"runtime"
 	"slices"
-	"strings"
 	"sync"
 	"sync/atomic"
 	"testing"
@@ -362,7 +361,10 @@ func whitebox(c *vk.C, rng *rand.Rand, k int) {
 			}
 		}
 
-		for fi, lo := range [][]state.ListOption{nil, {state.WithLabelQuery(resource.LabelEqual("odd", "1"))}, {state.WithIDQuery(resource.IDRegexpMatch(regexp.MustCompile("^a")))}} {
+		idre := res.GenIDRegexp(rng, wbIDs)
+
+		for fi, lo := range [][]state.ListOption{nil, {state.WithLabelQuery(resource.LabelEqual("odd", "1"))}, {state.WithIDQuery(resource.IDRegexpMatch(idre))},
+			{state.WithIDQuery(resource.IDRegexpMatch(idre)), state.WithLabelQuery(resource.LabelEqual("odd", "1"))}} {
 			l, err := cache.List(ctx, resource.NewMetadata(ns, typ, "", resource.VersionUndefined), lo...)
 			if err != nil {
 				fail("cache-differs-from-model", map[string]any{"read": "List", "err": err.Error()})
@@ -373,7 +375,7 @@ func whitebox(c *vk.C, rng *rand.Rand, k int) {
 			want := map[string]string{}
 
 			for x, r := range model {
-				if fi == 1 && r.Metadata().Labels().Raw()["odd"] != "1" || fi == 2 && !strings.HasPrefix(x, "a") {
+				if (fi == 1 || fi == 3) && r.Metadata().Labels().Raw()["odd"] != "1" || fi >= 2 && !idre.MatchString(x) {
 					continue
 				}
 
@@ -392,7 +394,7 @@ func whitebox(c *vk.C, rng *rand.Rand, k int) {
 			}
 
 			if !maps.Equal(got, want) {
-				fail("cache-differs-from-model", map[string]any{"read": "List", "filter": fi, "got": got, "want": want})
+				fail("cache-differs-from-model", map[string]any{"read": "List", "filter": fi, "id_regexp": idre.String(), "got": got, "want": want})
 
 				return
 			}
